@@ -1,11 +1,14 @@
 (* C13 — value, entity, entity-map, request and diagnostic JSON round-trips without loss (on JSON trees; bytes <-> tree is encoding/json).
    Models: Impl/ValueJson.v (values, tied by jsonenc / jsondec), Impl/EntityJson.v (entities and entity maps, tied by ejsonenc / ejsondec),
    Impl/RequestJson.v (requests, decisions, diagnostics: tied by rjsonenc / rjsondec / djsonenc / djsondec / decjson).
-   Proofs: Proofs/ValueJsonProofs.v, Proofs/EntityJsonProofs.v, Proofs/RequestJsonProofs.v. *)
+   Impl/Coerce.v (schema-guided coercion of decoded values along their declared types, x/exp/types/json.go: tied by coerce / coercetags
+   through the hook VerifCoerceValue).
+   Proofs: Proofs/ValueJsonProofs.v, Proofs/EntityJsonProofs.v, Proofs/RequestJsonProofs.v, Proofs/CoerceProofs.v. *)
 From Coq Require Import ZArith List Bool Permutation String.
 Import ListNotations.
 From Cedar Require Import Base.Json Lang.Value Lang.Expr Impl.IPAddr Impl.ValueJson Impl.PolicyJson Impl.EntityJson Proofs.ValueProofs Proofs.ValueJsonProofs
-  Proofs.EntityJsonProofs Impl.RequestJson Proofs.RequestJsonProofs.
+  Proofs.EntityJsonProofs Impl.RequestJson Proofs.RequestJsonProofs Base.Int64 Impl.Decimal Impl.Duration Impl.Datetime Impl.IPPrint Impl.TypeCheck Lang.TypeSound
+  Impl.Coerce Proofs.IPProofs Proofs.CoerceProofs.
 
 Section C13.
   Variable print_ip : bool -> Z -> Z -> str.           (* net/netip's printer: not modelled *)
@@ -107,6 +110,56 @@ Proof. exact dec_diagnostic_total. Qed.
 Theorem C13_request_roundtrip_concrete : forall rq, request_wf IPProofs.ip_ok rq -> dec_request (enc_request IPPrint.print_ip rq_id rq) = DOk rq.
 Proof. exact rq_concrete_roundtrip. Qed.
 
+(* ---- schema-guided coercion (Impl/Coerce.v): all accepted spellings of a datum decode to equal values ----
+   `spells t v' v` (Proofs/CoerceProofs.v): v' is an accepted spelling of v at a position of declared type t - v itself (the explicit escapes
+   decode to it without a schema), a record with string members "type" and "id" for an entity, a string that parses as a literal of the
+   extension type for an extension value, member-wise for sets (any order, repeats allowed) and for the declared attributes of records. *)
+Theorem C13_coercion_spelling : forall t v' v, vtyped v t -> wf_value v = true -> spells t v' v ->
+  veq (coerce t v') v = true /\ veq v (coerce t v') = true.
+Proof. exact coerce_spelling_both. Qed.
+Theorem C13_coercion_spellings_agree : forall t v1 v2 v, vtyped v t -> wf_value v = true -> spells t v1 v -> spells t v2 v ->
+  veq (coerce t v1) (coerce t v2) = true.
+Proof. exact coerce_spellings_agree. Qed.
+(* a conforming value is left exactly as it is; coercion keeps every value canonical *)
+Theorem C13_coercion_identity_on_typed : forall t v, vtyped v t -> wf_value v = true -> coerce t v = v.
+Proof. exact coerce_typed_eq. Qed.
+Theorem C13_coercion_keeps_canonical : forall t v, wf_value v = true -> wf_value (coerce t v) = true.
+Proof. exact coerce_wf. Qed.
+(* the strings the encoders' printers write are accepted spellings (with the round-trip ranges of C12) *)
+Theorem C13_printed_decimal_spells : forall z, in64 z -> spells (CExt (s_of "decimal")) (VString (print_decimal z)) (VDecimal z).
+Proof. exact printed_forms_spell_decimal. Qed.
+Theorem C13_printed_duration_spells : forall z, in64 z -> spells (CExt (s_of "duration")) (VString (print_duration z)) (VDuration z).
+Proof. exact printed_forms_spell_duration. Qed.
+Theorem C13_printed_datetime_spells : forall z, in_dt_range z = true -> spells (CExt (s_of "datetime")) (VString (print_datetime z)) (VDatetime z).
+Proof. exact printed_forms_spell_datetime. Qed.
+Theorem C13_printed_ip_spells : forall v6 a p, IPProofs.ip_ok v6 a p = true -> spells (CExt (s_of "ipaddr")) (VString (IPPrint.print_ip v6 a p)) (VIP v6 a p).
+Proof. exact printed_forms_spell_ip. Qed.
+(* whole entities: a conforming canonical entity is left alone; an entity whose attributes and tags are spellings of a conforming one is
+   coerced to it (uid and parents untouched, attributes and tags Cedar-equal) *)
+Theorem C13_coercion_entity_identity : forall sch u e,
+  entity_ok sch u e -> wf_value (VRecord (e_attrs e)) = true -> wf_value (VRecord (e_tags e)) = true -> coerce_entity sch (u, e) = (u, e).
+Proof. exact coerce_entity_id. Qed.
+Theorem C13_coercion_entity_spelling : forall sch u e' e te,
+  alookup (fst u) (ts_entities sch) = Some te ->
+  spells (CRec (te_shape te)) (VRecord (e_attrs e')) (VRecord (e_attrs e)) ->
+  vtyped (VRecord (e_attrs e)) (CRec (te_shape te)) -> wf_value (VRecord (e_attrs e)) = true ->
+  match te_tags te with
+  | Some tg => map fst (e_tags e') = map fst (e_tags e) /\
+               Forall2 (fun kv' kv : str * value => spells tg (snd kv') (snd kv)) (e_tags e') (e_tags e) /\
+               Forall (fun kv : str * value => vtyped (snd kv) tg /\ wf_value (snd kv) = true) (e_tags e)
+  | None => e_tags e' = e_tags e
+  end ->
+  fst (coerce_entity sch (u, e')) = u /\
+  e_parents (snd (coerce_entity sch (u, e'))) = e_parents e' /\
+  veq (VRecord (e_attrs (snd (coerce_entity sch (u, e'))))) (VRecord (e_attrs e)) = true /\
+  veq (VRecord (e_tags (snd (coerce_entity sch (u, e'))))) (VRecord (e_tags e)) = true.
+Proof. exact coerce_entity_spelling. Qed.
+(* the code does not require "type" and "id" to be the ONLY members of an implicit entity reference (an observation, not a finding: the
+   property speaks of accepted spellings, and the validation that follows coercion sees an entity of the declared type) *)
+Theorem C13_coercion_accepts_extra_members :
+  coerce (CEnt [s_of "U"]) (VRecord [(s_of "extra", VLong 1); (s_of "id", VString (s_of "a")); (s_of "type", VString (s_of "U"))]) = VEntity (s_of "U") (s_of "a").
+Proof. exact coerce_extra_members. Qed.
+
 Theorem C13_entity_decoder_total : forall j, dec_entity_map j <> DFuel.
 Proof. exact dec_entity_map_total. Qed.
 
@@ -136,3 +189,14 @@ Print Assumptions C13_decision_roundtrip.
 Print Assumptions C13_request_decoder_total.
 Print Assumptions C13_diagnostic_decoder_total.
 Print Assumptions C13_request_roundtrip_concrete.
+Print Assumptions C13_coercion_spelling.
+Print Assumptions C13_coercion_spellings_agree.
+Print Assumptions C13_coercion_identity_on_typed.
+Print Assumptions C13_coercion_keeps_canonical.
+Print Assumptions C13_printed_decimal_spells.
+Print Assumptions C13_printed_duration_spells.
+Print Assumptions C13_printed_datetime_spells.
+Print Assumptions C13_printed_ip_spells.
+Print Assumptions C13_coercion_entity_identity.
+Print Assumptions C13_coercion_entity_spelling.
+Print Assumptions C13_coercion_accepts_extra_members.
